@@ -101,7 +101,7 @@ int World::exec_dims(const Op &op) {
             if (variant == 4) { df = DataFrame(); arg_class += ",none-frame"; }
             else if (!df) return 2;
             try {
-                if (variant == 5 && df) { unsigned col = (unsigned) df.columns().size() + 1 + (unsigned) r.below(3); arg_class += ",column-outside"; x.appendDataFrameDimension(df, col); d.column = (int) col; }
+                if (variant == 5 && df) { unsigned col = (unsigned) df.columns().size() + (unsigned) r.below(4); arg_class += ",column-outside";   /* the first index past the last column included */ x.appendDataFrameDimension(df, col); d.column = (int) col; }
                 else if (variant == 6 || !df) { x.appendDataFrameDimension(df); d.column = -1; arg_class += ",no-column"; }
                 else if (variant == 7 && df) { std::vector<Column> cols = df.columns(); unsigned c = (unsigned) r.below(cols.size()); x.appendDataFrameDimension(df, cols[c].name); d.column = (int) c; arg_class += ",by-name"; }
                 else { unsigned c = (unsigned) r.below(df.columns().size()); x.appendDataFrameDimension(df, c); d.column = (int) c; }
